@@ -377,3 +377,34 @@ def reset(d=2):
         k[0, i] = 1
         ks.append(k)
     return ks
+
+
+# ---------------------------------------------------------------- arbitrary channels (derived from an integer so that
+# the program description stays small; the generator is plain numpy and shared by the real constructor and the model)
+def random_kraus(seed, dim, k):
+    """k Kraus operators of a Haar-random Stinespring isometry: complex, non-diagonal effects"""
+    rng = np.random.default_rng([int(seed), int(dim), int(k), 77])
+    a = rng.normal(size=(k * dim, dim)) + 1j * rng.normal(size=(k * dim, dim))
+    q, r = np.linalg.qr(a)
+    q = q * (np.diag(r) / np.abs(np.diag(r)))
+    return [np.array(q[i * dim:(i + 1) * dim]) for i in range(k)]
+
+
+def random_mixture(seed, dim, k):
+    rng = np.random.default_rng([int(seed), int(dim), int(k), 78])
+    ps = rng.dirichlet(np.ones(k))
+    us = []
+    for _ in range(k):
+        a = rng.normal(size=(dim, dim)) + 1j * rng.normal(size=(dim, dim))
+        q, r = np.linalg.qr(a)
+        us.append(q * (np.diag(r) / np.abs(np.diag(r))))
+    return [float(x) for x in ps], us
+
+
+def weak_measure(theta, phi, strength):
+    """two-outcome weak measurement along the Bloch axis (theta, phi): E_+- = (I +- s n.sigma)/2, K = sqrt(E)"""
+    n = (math.sin(theta) * math.cos(phi), math.sin(theta) * math.sin(phi), math.cos(theta))
+    ns = n[0] * X + n[1] * Y + n[2] * Z
+    pp, pm = (I2 + ns) / 2, (I2 - ns) / 2
+    a, b = math.sqrt((1 + strength) / 2), math.sqrt((1 - strength) / 2)
+    return [a * pp + b * pm, b * pp + a * pm]
